@@ -210,6 +210,12 @@ def render_input(case, power_file="power.csv"):
             L.append("    [[%s]]" % sub)
             for k, v in s[sub].items():
                 L.append("        %s = %s" % (k, fmt(v)))
+    if s.get('AssemblyTables'):
+        L.append("    [[AssemblyTables]]")
+        for nm, tb in s['AssemblyTables'].items():
+            L.append("        [[[%s]]]" % nm)
+            for k, v in tb.items():
+                L.append("            %s = %s" % (k, fmt(v) + ("," if isinstance(v, list) and len(v) == 1 else "")))
     if case.get('materials'):
         L.append("[Materials]")
         for nm, m in case['materials'].items():
